@@ -24,13 +24,16 @@ def ok(r, n):
     return isinstance(r, list) and r and r[0] == "ok" and len(r) == n
 
 
+LINK_CALLS = ("hold", "release", "partition", "repair", "partition_oneway", "repair_oneway")
+
+
 def fault_calls(case):
     """every fault call of the script in the order the simulation sees it: [(step, via, name, a, b)];
     via 0 = the Sim handle before the step, via 1 = host code during the step"""
     out = []
     for k, st in enumerate(case["steps"]):
         for act in st["ctl"]:
-            if act[0] != "deliver":
+            if act[0] in LINK_CALLS:
                 out.append((k, 0, act[0], act[1], act[2]))
         for h in sorted(st.get("hosts", {}), key=int):
             for cmd in st["hosts"][h]:
@@ -179,6 +182,11 @@ def c12_oracle(case, obs):
     for (k, via, nm, a, b) in calls:
         if nm.startswith("partition"):
             parts.setdefault((min(a, b), max(a, b)), []).append(k)
+    for (k, src, dst, rp, rr) in obs.get("coins", []):
+        if rp and isinstance(src, int) and isinstance(dst, int):
+            # the fail_rate coin came up at an enqueue of step k: healthy directions of the link break and
+            # drop what is in flight, like a partition imposed in that step
+            parts.setdefault((min(src, dst), max(src, dst)), []).append(k)
     for (src, sport, dport, a, b), last in syn_seen.items():
         if last + 1 >= len(obs["post"]) or any(p == last + 1 for p in parts.get((a, b), [])):
             continue
@@ -498,6 +506,95 @@ def c12_oracle(case, obs):
                                     % (k, h, obs["post"][k][1][h][1], len(live2[h]), len(pend2[h])), None))
                         dirty = True
                         break
+    # ---- random link failure: a request in flight on a direction that breaks is never accepted ----------
+    # Direction states by the documented meaning of the calls and of the fail_rate / repair_rate coins (the
+    # coins themselves are read from the decision log): the partition coin breaks the directions that are
+    # healthy -- a held or explicitly partitioned direction keeps its state -- and drops what is in flight
+    # on them; otherwise the repair coin repairs what the random process broke.
+    coins = [c for c in obs.get("coins", []) if isinstance(c[1], int) and isinstance(c[2], int)]
+    if any(c[3] for c in coins):
+        dstate = {}
+        touched = {}           # pair -> steps with a fault call or a manual delivery
+        for (k, via, nm, a, b) in calls:
+            touched.setdefault((min(a, b), max(a, b)), set()).add(k)
+        for k, st in enumerate(case["steps"]):
+            for act in st["ctl"]:
+                if act[0] == "deliver":
+                    touched.setdefault((min(act[1], act[2]), max(act[1], act[2])), set()).add(k)
+        breaks = []            # (step, broken directions, directions that stayed held)
+
+        def apply_call(nm, a, b):
+            if nm == "hold":
+                dstate[(a, b)] = dstate[(b, a)] = "hold"
+            elif nm in ("release", "repair"):
+                dstate[(a, b)] = dstate[(b, a)] = "ok"
+            elif nm == "partition":
+                dstate[(a, b)] = dstate[(b, a)] = "cut"
+            elif nm == "partition_oneway":
+                dstate[(a, b)] = "cut"
+            elif nm == "repair_oneway":
+                dstate[(a, b)] = "ok"
+        unsure = set()
+        for k in range(len(case["steps"])):
+            for (k2, via, nm, a, b) in calls:
+                if k2 == k and via == 0:
+                    apply_call(nm, a, b)
+            ck = [c for c in coins if c[0] == k]
+            for (k2, via, nm, a, b) in calls:
+                if k2 == k and via == 1 and any({c[1], c[2]} == {a, b} for c in ck):
+                    unsure.add((min(a, b), max(a, b)))      # host-code call and enqueues in one step: order unknown
+            for (_, src, dst, rp, rr) in ck:
+                dirs = [(src, dst), (dst, src)]
+                healthy = [d for d in dirs if dstate.get(d, "ok") == "ok"]
+                if rp and healthy:
+                    for d in healthy:
+                        dstate[d] = "rand"
+                    breaks.append((k, healthy, [d for d in dirs if dstate.get(d) == "hold"]))
+                elif rr and any(dstate.get(d) == "rand" for d in dirs):
+                    for d in dirs:
+                        if dstate.get(d) == "rand":
+                            dstate[d] = "ok"
+            for (k2, via, nm, a, b) in calls:
+                if k2 == k and via == 1:
+                    apply_call(nm, a, b)
+        for (k, broken, held_dirs) in breaks:
+            if k == 0 or k >= len(obs["post"]):
+                continue
+            pr = (min(broken[0]), max(broken[0]))
+            if pr in unsure or touched.get(pr, set()) & {k - 1, k}:
+                continue
+            for cid, sy in syn_of.items():
+                src, sport, dport, a, b, k0 = sy
+                if (a, b) != pr or k0 >= k:
+                    continue
+                dst = b if src == a else a
+                key = [src, "syn", 0, 0, sport, dport]
+
+                def there(kk):
+                    return any(list(m) == key for (a2, b2, msgs) in obs["post"][kk][0] if (a2, b2) == (a, b) for m in msgs)
+                if not there(k - 1):
+                    continue
+                c = conn[cid]
+                if (src, dst) in broken:
+                    if there(k):
+                        out.append(("connect %d: its SYN (host %d port %d) was in flight on %d->%d when that direction "
+                                    "failed at step %d (fail_rate coin), but it is still on the link afterwards"
+                                    % (cid, src, sport, src, dst, k), None))
+                    acc = [x for x in accepts if x["host"] == dst and x["peer"] == [src, sport] and x["step"] >= k]
+                    later = [(kk, r) for (kk, r) in c["results"] if kk > k]
+                    if acc or (later and ok(later[0][1], 3)):
+                        out.append(("connect %d: its SYN was in flight on %d->%d when that direction failed at step %d, "
+                                    "yet it was accepted / completed afterwards" % (cid, src, dst, k), None))
+                        break
+                    if later and later[0][1] == "pending":
+                        out.append(("connect %d: its SYN was dropped when the direction %d->%d failed at step %d, but it "
+                                    "still pends at step %d" % (cid, src, dst, k, later[0][0]), None))
+                        break
+                elif (src, dst) in held_dirs and not there(k):
+                    out.append(("connect %d: its SYN (host %d port %d) is parked on the held direction %d->%d, which did "
+                                "not fail, but it disappeared from the link when the other direction failed at step %d"
+                                % (cid, src, sport, src, dst, k), None))
+                    break
     # ---- after the last release every connect is decided ---------------------------------------------
     # The fault calls by their documented meaning: hold parks what is and what will be sent; repair makes
     # the link healthy "without releasing any held messages"; release makes it healthy and schedules every
@@ -627,14 +724,17 @@ class Spec(PropSpec):
     rule = ("scripts = 1-4 connectors on 2-3 hosts (remote, the listener's own host through its address and through "
             "127.0.0.1, by name, v4/v6) racing for one or two listeners (wildcard and localhost binds) with scripted SYN "
             "delivery order on held links or zero-latency healthy links, fault-call sequences (hold, repair, repair_oneway, "
-            "partition, release from the Sim handle and from host code) with SYNs and data parked meanwhile, accepts, polls, cancels by drop and by "
+            "partition, release from the Sim handle and from host code) with SYNs and data parked meanwhile, random link failure "
+            "(fail_rate / repair_rate, set_fail_rate / set_link_fail_rate mid-run; the coins are read from the verif-hooks "
+            "decision log) with one direction held or explicitly partitioned, accepts, polls, cancels by drop and by "
             "tokio::time::timeout before/after SYN delivery, listener drop and re-bind, partitions around the handshake, a "
             "nonce written by each connector and read by its acceptor, stream drops, established_tcp_stream_count and the "
             "verif-hooks table sizes after every step; a case is non-trivial when a connect was accepted or refused; "
             "distinct = distinct (hosts, capacity, script)")
     assumptions = [
         "tokio oneshot / Notify / mpsc are replaced by flags and bounded FIFOs (modelled, not verified)",
-        "SYN delivery order, loss (partitions) and cancellation points are inputs of the model; theorems quantify over all of them",
+        "SYN delivery order, loss (partitions, the coins of the random link failure) and cancellation points are inputs of the "
+        "model; theorems quantify over all of them; message latency is zero in the scripts (in flight = parked by a hold)",
         "connections are identified by ghost ids; a stale segment of a closed connection reaching a new connection that "
         "reuses the same port pair (ephemeral range wrapped around) is not modelled",
         "the 'server socket buffer full' panic (more pending SYNs than tcp_capacity) is an explicit RPanic outcome; the "
@@ -654,7 +754,7 @@ class Spec(PropSpec):
             elif r < 3:
                 cases.append(F.gen_parked_accepts(ctx.rng) if (i // 10) % 2 else F.gen_abandon(ctx.rng))
             elif r < 4:
-                cases.append(F.gen_partition(ctx.rng) if (i // 10) % 3 == 0 else F.gen_linkcalls(ctx.rng))
+                cases.append([F.gen_partition, F.gen_linkcalls, F.gen_randfail][(i // 10) % 3](ctx.rng))
             elif r < 5:
                 cases.append(F.gen_backlog(ctx.rng))
             elif r < 7:
@@ -690,8 +790,8 @@ class Spec(PropSpec):
 
 
 THEOREMS = ["c12_pairing", "c12_syn_token_unique", "c12_poll_decided", "c12_fifo", "c12_accept_first_alive", "c12_accept_result",
-            "c12_refused_unowned", "c12_refused_partitioned", "c12_refused_no_listener", "c12_refused_listener_dropped",
+            "c12_refused_unowned", "c12_refused_partitioned", "c12_refused_random_break", "c12_random_break_drops_syn", "c12_refused_no_listener", "c12_refused_listener_dropped",
             "c12_refused_removes_entry", "c12_no_residue", "c12_cancel_removes_entry", "c12_abandon_resets_acceptor", "c12_nonvacuous",
-            "c12_repair_keeps_parked", "c12_release_unparks", "c12_release_then_tick_empties", "c12_repair_release_example"]
+            "c12_repair_keeps_parked", "c12_release_unparks", "c12_release_then_tick_empties", "c12_repair_release_example", "c12_random_break_example"]
 Spec.theorems = THEOREMS
 SPEC = Spec()
